@@ -53,6 +53,7 @@ def gen_program(r, idx):
     kwdefaults = [r.choice(POOL) for _ in range(nkw)]
     return dict(npos=npos, ndef=ndef, varargs=varargs, nkw=nkw, kwdef=kwdef, varkw=varkw, kind=kind,
                 defaults=defaults, kwdefaults=kwdefaults,
+                named_inst=r.random() < 0.3,     # a callable instance that carries a __name__ (as after functools.update_wrapper)
                 falsy=r.random() < 0.3,     # the instance (methods, callable instances) is falsy: `bool(inst)` is False
                 p_npos=r.choice([0, 1, 1, 2]), p_kw=r.random() < 0.5, p_kwname=r.choice(PNAMES + KWONLY + ['q']),
                 p_vals=[r.choice(POOL) for _ in range(3)])
@@ -99,6 +100,8 @@ def build_callable(prog):
         if prog.get('falsy'): src += '    def __len__(self): return 0\n'
         exec(src, ns)
         inst = ns['C']()
+        if kind == 'callable' and prog.get('named_inst'):
+            inst.__name__ = 'target'; src += '# inst.__name__ = "target"\n'
         if kind in ('method', 'partial_method'): f = inst.target
         elif kind == 'unbound': f = ns['C'].target
         else: f = inst
